@@ -423,6 +423,17 @@ class BasicBlock(Value):
             # producing %7, then we'll have ``ret None``, and if we want to
             # replace that with a new reference, we can't as the reference to
             # %7 is missing.
+            # A replacement value can itself be scheduled for replacement
+            # (a = b; c = a; ...), so follow such chains to their end first
+            for ref, new in self.__replaceUses.items():
+                while (
+                    isinstance(new, Value)
+                    and new.Reference != ref
+                    and new.Reference in self.__replaceUses
+                ):
+                    new = self.__replaceUses[new.Reference]
+                self.__replaceUses[ref] = new
+
             self.Parent.ReplaceUses(self.__replaceUses)
 
         if self.__replacements:
